@@ -43,7 +43,7 @@ def boundary_cell(rng, res):
 def run(run):
     rng = run.rng
     run.do_ties()
-    quick = run.tier == "quick"
+    quick = run.quick
     npairs = 250 if quick else 6000
     pairs = []
     for _ in range(npairs):
